@@ -292,7 +292,9 @@ def gen_case(rng, big=False):
                 uv.extend([[0, 0], [1, 0], [0, 1]])
                 t = [len(uv) - 3, len(uv) - 2, len(uv) - 1]
             uvtris.append(t)
-        case['uv'] = uv
+        # texture charts come in every size: an atlas island may be a thousandth of the unit square (exact powers of two)
+        k = rng.choice([0, 0, 0, 3, 6, 9, 11, 13])
+        case['uv'] = [[u * 2.0 ** -k, v * 2.0 ** -k] for u, v in uv] if k else uv
         case['uvtris'] = uvtris
         # tangents need normals: supplied ones, or generate first
         case['tan'] = True
